@@ -5,6 +5,28 @@
 // together with the lock state at that point.  The Lean side (Lemmas/PSliceLocks.lean)
 // decides that every row is guarded and combines the table with the generic lock-set lemma.
 //
+// Local aliases.  A local variable may hold a copy of (part of) a guarded field after the lock is
+// released.  Every value derived from a guarded field has a LEVEL: `s.peers` (the field's own
+// slice header) is level 0, `s.peers[a:b]` stays level 0, `s.peers[i]` (ONE cell of the outer
+// array = one bin's slice header) is level 1, `&x` is level(x)-1, `*p` is level(p)+1; locals
+// assigned / ranged from such expressions inherit the level (computed per body, by name, to a
+// fixpoint).  Dereferencing a level-l value touches level-(l+1) memory:
+//   - level-1 memory is the outer array of bin headers, which Add/Remove write IN PLACE
+//     (`s.peers[po] = …`): it is what `mu` protects.  So every use of a level ≤ 0 alias
+//     (`bins := s.peers; …; bins[i]`, `range bins`, `copy(dst, bins)`, passing it to a call) is
+//     emitted as an access to the field with the lock state AT THE USE, not at the copy
+//     (`len(x)`/`cap(x)` and re-binding the local read only the local header and are exempt);
+//     a level ≤ 0 value that is returned, sent, or stored anywhere but in a local escapes the
+//     analysis: guard `unknown`.
+//   - level-2 memory (the element cells of one bin) is copy-on-write: Add appends at an index ≥ every
+//     published len or redirects the bin to a fresh array, Remove always redirects (theorems
+//     C21_snapshot_isolated*, C21_ops_emit_safe_prims over Model/PSliceMem*.lean, tied to the code by
+//     the len/cap/array-identity observations).  So READING through a level-1 alias
+//     (`peers := s.peers[i]` under RLock, unlock, `range peers`) is not a lock-discipline matter and
+//     emits nothing — exactly the pattern EachBin/EachBinRev use; WRITING through one
+//     (`peers[k] = …`, `copy(peers, …)`, `append(peers, …)`) is emitted as a write to the field.
+// The receiver used as a bare value (`*s`, `t := s`, `f(s)`) makes every row of the method `unknown`.
+//
 // The analysis is deliberately conservative: whatever it does not understand becomes
 // guard `unknown`, which the Lean check rejects.
 package main
@@ -30,6 +52,28 @@ const (
 
 var plGuarded = map[string]bool{"peers": true, "baseBytes": true}
 
+// slice / array / pointer nesting depth of the guarded fields, read off the struct declaration
+var plDepth = map[string]int{}
+
+func plTypeDepth(t ast.Expr) int {
+	switch x := t.(type) {
+	case *ast.ArrayType:
+		return 1 + plTypeDepth(x.Elt)
+	case *ast.StarExpr:
+		return 1 + plTypeDepth(x.X)
+	case *ast.ParenExpr:
+		return plTypeDepth(x.X)
+	}
+	return 0
+}
+
+// plAlias: a local variable holding a value of level `level` derived from guarded field `field`
+type plAlias struct {
+	field string
+	level int
+	line  int
+}
+
 type plGuard int
 
 const (
@@ -53,9 +97,15 @@ func (g plGuard) lean() string {
 
 type plAccess struct {
 	method, via, field string
+	alias              string // local variable the access goes through ("" = the field itself)
 	write              bool
 	guard              plGuard
 	line               int
+}
+
+type plAliasRow struct {
+	method, via, name, field string
+	level, line              int
 }
 
 type plMethod struct {
@@ -83,6 +133,9 @@ type plWalker struct {
 	entry    []plGuard // lock state at the entry of the enclosing loops / switches
 	rows     []plAccess
 	others   []plOther // writes to other (non-mutex) fields of the receiver
+
+	aliases   map[string]plAlias // locals of the body being walked that alias a guarded field
+	aliasRows []plAliasRow
 }
 
 type plOther struct {
@@ -100,7 +153,122 @@ func (w *plWalker) guard() plGuard {
 func (w *plWalker) poison() { w.poisoned = true; w.state = plUnknown }
 
 func (w *plWalker) emit(field string, write bool, pos token.Pos) {
-	w.rows = append(w.rows, plAccess{w.method, w.via, field, write, w.guard(), w.fset.Position(pos).Line})
+	w.rows = append(w.rows, plAccess{w.method, w.via, field, "", write, w.guard(), w.fset.Position(pos).Line})
+}
+
+func (w *plWalker) emitAlias(name string, a plAlias, write bool, g plGuard, pos token.Pos) {
+	w.rows = append(w.rows, plAccess{w.method, w.via, a.field, name, write, g, w.fset.Position(pos).Line})
+}
+
+// levelOf: e is a value derived from a guarded field; its level (see the file comment).
+func (w *plWalker) levelOf(e ast.Expr) (plAlias, string, bool) {
+	switch x := e.(type) {
+	case *ast.ParenExpr:
+		return w.levelOf(x.X)
+	case *ast.SelectorExpr:
+		if w.isRecv(x.X) && plGuarded[x.Sel.Name] {
+			return plAlias{field: x.Sel.Name, level: 0}, "", true
+		}
+	case *ast.Ident:
+		if a, ok := w.aliases[x.Name]; ok {
+			return a, x.Name, true
+		}
+	case *ast.SliceExpr:
+		return w.levelOf(x.X)
+	case *ast.IndexExpr:
+		if a, n, ok := w.levelOf(x.X); ok {
+			a.level++
+			return a, n, true
+		}
+	case *ast.StarExpr:
+		if a, n, ok := w.levelOf(x.X); ok {
+			a.level++
+			return a, n, true
+		}
+	case *ast.UnaryExpr:
+		if x.Op == token.AND {
+			if a, n, ok := w.levelOf(x.X); ok {
+				a.level--
+				return a, n, true
+			}
+		}
+	}
+	return plAlias{}, "", false
+}
+
+// findAliases computes, by name and to a fixpoint, the locals of `body` that hold a value of
+// level < depth(field) derived from a guarded field.
+func (w *plWalker) findAliases(body *ast.BlockStmt) {
+	w.aliases = map[string]plAlias{}
+	bind := func(lhs ast.Expr, a plAlias, ok bool) bool {
+		id, isId := lhs.(*ast.Ident)
+		if !ok || !isId || id.Name == "_" || a.level >= plDepth[a.field] {
+			return false
+		}
+		if old, had := w.aliases[id.Name]; had && (old.field != a.field || old.level <= a.level) {
+			return false
+		}
+		a.line = w.fset.Position(id.Pos()).Line
+		w.aliases[id.Name] = a // the lowest level wins (most conservative)
+		return true
+	}
+	for changed := true; changed; {
+		changed = false
+		ast.Inspect(body, func(n ast.Node) bool {
+			switch x := n.(type) {
+			case *ast.AssignStmt:
+				if len(x.Lhs) == len(x.Rhs) {
+					for i := range x.Lhs {
+						a, _, ok := w.levelOf(x.Rhs[i])
+						changed = bind(x.Lhs[i], a, ok) || changed
+					}
+				}
+			case *ast.ValueSpec:
+				if len(x.Names) == len(x.Values) {
+					for i := range x.Names {
+						a, _, ok := w.levelOf(x.Values[i])
+						changed = bind(x.Names[i], a, ok) || changed
+					}
+				}
+			case *ast.RangeStmt:
+				if a, _, ok := w.levelOf(x.X); ok && x.Value != nil {
+					a.level++
+					changed = bind(x.Value, a, true) || changed
+				}
+			}
+			return true
+		})
+	}
+	names := make([]string, 0, len(w.aliases))
+	for n := range w.aliases {
+		names = append(names, n)
+	}
+	sort.Slice(names, func(i, j int) bool { return w.aliases[names[i]].line < w.aliases[names[j]].line })
+	for _, n := range names {
+		a := w.aliases[n]
+		w.aliasRows = append(w.aliasRows, plAliasRow{w.method, w.via, n, a.field, a.level, a.line})
+	}
+}
+
+// plainAlias: e is an alias identifier, possibly parenthesised / re-sliced, with no dereference
+func (w *plWalker) plainAlias(e ast.Expr) (*ast.Ident, bool) {
+	switch x := e.(type) {
+	case *ast.ParenExpr:
+		return w.plainAlias(x.X)
+	case *ast.Ident:
+		_, ok := w.aliases[x.Name]
+		return x, ok
+	}
+	return nil, false
+}
+
+// escapes: a level ≤ 0 value leaves the locals of the method (returned, sent, stored in a
+// field / element / composite literal): whoever receives it dereferences it in a lock state
+// this analysis does not see.
+func (w *plWalker) escapes(e ast.Expr) {
+	if a, n, ok := w.levelOf(e); ok && a.level <= 0 {
+		w.emitAlias(n, a, false, plUnknown, e.Pos())
+	}
 }
 
 func (w *plWalker) isRecv(e ast.Expr) bool {
@@ -144,11 +312,12 @@ func (w *plWalker) inline(h *plMethod, forceUnknown bool) {
 	if w.depth >= plMaxDepth {
 		forceUnknown = true
 	}
-	sv, sr := w.via, w.recv
+	sv, sr, sa := w.via, w.recv, w.aliases
 	if w.via == "" {
 		w.via = h.name
 	}
 	w.recv = h.recv
+	w.findAliases(h.body)
 	w.depth++
 	if forceUnknown {
 		w.inLit++
@@ -160,7 +329,7 @@ func (w *plWalker) inline(h *plMethod, forceUnknown bool) {
 		w.inLit--
 	}
 	w.depth--
-	w.via, w.recv = sv, sr
+	w.via, w.recv, w.aliases = sv, sr, sa
 }
 
 // expr walks an expression in source order; write = the expression is the root of an assignment target.
@@ -168,6 +337,29 @@ func (w *plWalker) expr(e ast.Expr, write bool) {
 	switch x := e.(type) {
 	case nil:
 		return
+	case *ast.Ident:
+		if w.isRecv(x) {
+			w.allBad = true // the receiver as a bare value: *s, t := s, f(s)
+			return
+		}
+		if a, ok := w.aliases[x.Name]; ok {
+			switch {
+			case a.level <= 0:
+				w.emitAlias(x.Name, a, write, w.guard(), x.Pos())
+			case write:
+				w.emitAlias(x.Name, a, true, w.guard(), x.Pos())
+			}
+		}
+	case *ast.CompositeLit:
+		for _, el := range x.Elts {
+			v := el
+			if kv, ok := el.(*ast.KeyValueExpr); ok {
+				w.expr(kv.Key, false)
+				v = kv.Value
+			}
+			w.escapes(v)
+			w.expr(v, false)
+		}
 	case *ast.SelectorExpr:
 		if w.isRecv(x.X) {
 			switch {
@@ -224,9 +416,20 @@ func (w *plWalker) expr(e ast.Expr, write bool) {
 			}
 		}
 		w.expr(x.Fun, false)
+		fid, isBuiltin := x.Fun.(*ast.Ident)
 		for i, a := range x.Args {
-			id, isCopy := x.Fun.(*ast.Ident)
-			w.expr(a, i == 0 && isCopy && id.Name == "copy" && len(x.Args) == 2)
+			if isBuiltin && (fid.Name == "len" || fid.Name == "cap") && len(x.Args) == 1 {
+				if _, ok := w.plainAlias(a); ok {
+					continue // reads the local header only
+				}
+			}
+			wr := i == 0 && isBuiltin && fid.Name == "copy" && len(x.Args) == 2
+			if i == 0 && isBuiltin && fid.Name == "append" {
+				if _, ok := w.plainAlias(a); ok {
+					wr = true // may store in place at index len of the shared array
+				}
+			}
+			w.expr(a, wr)
 		}
 	case *ast.FuncLit:
 		w.inLit++
@@ -368,6 +571,9 @@ func (w *plWalker) stmt(s ast.Stmt) (term bool) {
 		w.inLit--
 	case *ast.AssignStmt:
 		for _, l := range x.Lhs {
+			if id, ok := l.(*ast.Ident); ok && !w.isRecv(id) {
+				continue // (re)binding a local: no memory shared with the struct is touched
+			}
 			if x.Tok == token.DEFINE {
 				w.expr(l, false)
 				continue
@@ -377,7 +583,16 @@ func (w *plWalker) stmt(s ast.Stmt) (term bool) {
 				w.expr(l, false)
 			}
 		}
-		for _, r := range x.Rhs {
+		for i, r := range x.Rhs {
+			if len(x.Lhs) == len(x.Rhs) {
+				if _, local := x.Lhs[i].(*ast.Ident); local {
+					if w.localCopy(r) {
+						continue
+					}
+				} else {
+					w.escapes(r)
+				}
+			}
 			w.expr(r, false)
 		}
 	case *ast.IncDecStmt:
@@ -385,9 +600,11 @@ func (w *plWalker) stmt(s ast.Stmt) (term bool) {
 		w.expr(x.X, false)
 	case *ast.SendStmt:
 		w.expr(x.Chan, false)
+		w.escapes(x.Value)
 		w.expr(x.Value, false)
 	case *ast.ReturnStmt:
 		for _, r := range x.Results {
+			w.escapes(r)
 			w.expr(r, false)
 		}
 		return true
@@ -412,7 +629,9 @@ func (w *plWalker) stmt(s ast.Stmt) (term bool) {
 			for _, sp := range gd.Specs {
 				if vs, ok := sp.(*ast.ValueSpec); ok {
 					for _, v := range vs.Values {
-						w.expr(v, false)
+						if !w.localCopy(v) {
+							w.expr(v, false)
+						}
 					}
 				}
 			}
@@ -447,8 +666,11 @@ func (w *plWalker) stmt(s ast.Stmt) (term bool) {
 	case *ast.RangeStmt:
 		w.expr(x.X, false)
 		w.loop(func() {
-			w.expr(x.Key, x.Tok == token.ASSIGN)
-			w.expr(x.Value, x.Tok == token.ASSIGN)
+			for _, kv := range []ast.Expr{x.Key, x.Value} {
+				if _, local := kv.(*ast.Ident); !local {
+					w.expr(kv, x.Tok == token.ASSIGN)
+				}
+			}
 			w.block(x.Body.List)
 		})
 	case *ast.SwitchStmt:
@@ -460,6 +682,26 @@ func (w *plWalker) stmt(s ast.Stmt) (term bool) {
 	case *ast.EmptyStmt:
 	default:
 		w.poison() // unknown statement kind
+	}
+	return false
+}
+
+// localCopy: r is an alias identifier (possibly re-sliced) copied into another local — only the
+// local header is read; the slice bounds are still walked.
+func (w *plWalker) localCopy(r ast.Expr) bool {
+	switch x := r.(type) {
+	case *ast.ParenExpr:
+		return w.localCopy(x.X)
+	case *ast.Ident:
+		_, ok := w.aliases[x.Name]
+		return ok
+	case *ast.SliceExpr:
+		if w.localCopy(x.X) {
+			w.expr(x.Low, false)
+			w.expr(x.High, false)
+			w.expr(x.Max, false)
+			return true
+		}
 	}
 	return false
 }
@@ -516,6 +758,9 @@ func genPSliceLocks(repo string) (string, error) {
 					fields = append(fields, "<embedded>")
 				}
 				for _, n := range f.Names {
+					if plGuarded[n.Name] {
+						plDepth[n.Name] = plTypeDepth(f.Type)
+					}
 					fields = append(fields, n.Name)
 					if isMu && mutex == "" {
 						mutex = n.Name
@@ -573,6 +818,7 @@ func genPSliceLocks(repo string) (string, error) {
 		if forceUnknown {
 			w.inLit = 1
 		}
+		w.findAliases(m.body)
 		w.block(m.body.List)
 		if w.allBad {
 			for i := range w.rows {
@@ -604,7 +850,7 @@ func genPSliceLocks(repo string) (string, error) {
 		ast.Inspect(fd.Body, func(n ast.Node) bool {
 			if sel, ok := n.(*ast.SelectorExpr); ok && plGuarded[sel.Sel.Name] {
 				perMethod[name] = append(perMethod[name],
-					plAccess{name, "", sel.Sel.Name, true, plUnknown, fset.Position(sel.Pos()).Line})
+					plAccess{name, "", sel.Sel.Name, "", true, plUnknown, fset.Position(sel.Pos()).Line})
 			}
 			return true
 		})
@@ -614,7 +860,7 @@ func genPSliceLocks(repo string) (string, error) {
 	fmt.Fprintf(&sb, "-- GENERATED by harness/cmd/extract (pslice_locks.go) from %s — do not edit\n", plFile)
 	sb.WriteString("namespace Aurora.Generated.PSliceLocks\n\n")
 	sb.WriteString("inductive Guard | lock | rlock | none | unknown\nderiving DecidableEq, Repr\n\n")
-	sb.WriteString("structure Access where\n  method : String\n  via    : String\n  field  : String\n  write  : Bool\n  guard  : Guard\n  line   : Nat\nderiving DecidableEq, Repr\n\n")
+	sb.WriteString("structure Access where\n  method : String\n  via    : String\n  field  : String\n  alias  : String\n  write  : Bool\n  guard  : Guard\n  line   : Nat\nderiving DecidableEq, Repr\n\n")
 	sb.WriteString("def accesses : List Access := [\n")
 	var all []plAccess
 	for _, m := range order {
@@ -629,8 +875,8 @@ func genPSliceLocks(repo string) (string, error) {
 		if i == len(all)-1 {
 			sep = ""
 		}
-		fmt.Fprintf(&sb, "  { method := %s, via := %s, field := %s, write := %t, guard := %s, line := %d }%s\n",
-			strconv.Quote(a.method), strconv.Quote(a.via), strconv.Quote(a.field), a.write, a.guard.lean(), a.line, sep)
+		fmt.Fprintf(&sb, "  { method := %s, via := %s, field := %s, alias := %s, write := %t, guard := %s, line := %d }%s\n",
+			strconv.Quote(a.method), strconv.Quote(a.via), strconv.Quote(a.field), strconv.Quote(a.alias), a.write, a.guard.lean(), a.line, sep)
 	}
 	sb.WriteString("]\n\n")
 
@@ -658,6 +904,24 @@ func genPSliceLocks(repo string) (string, error) {
 			sb.WriteString(", ")
 		}
 		fmt.Fprintf(&sb, "(%s, %s, %d)", strconv.Quote(o.method), strconv.Quote(o.field), o.line)
+	}
+	sb.WriteString("]\n\n")
+	sb.WriteString("/-- locals holding a value derived from a guarded field: (method, helper, variable, field, level, line);\n")
+	sb.WriteString("    level 0 = shares the field's own array (uses are rows of `accesses`), level 1 = copy of one cell of it\n")
+	sb.WriteString("    (one bin's slice header; only writes through it are rows) — documentation, see pslice_locks.go -/\n")
+	sb.WriteString("def aliases : List (String × String × String × String × Int × Nat) := [")
+	seen := map[plAliasRow]bool{}
+	first := true
+	for _, a := range w.aliasRows {
+		if seen[a] {
+			continue
+		}
+		seen[a] = true
+		if !first {
+			sb.WriteString(",")
+		}
+		first = false
+		fmt.Fprintf(&sb, "\n  (%s, %s, %s, %s, %d, %d)", strconv.Quote(a.method), strconv.Quote(a.via), strconv.Quote(a.name), strconv.Quote(a.field), a.level, a.line)
 	}
 	sb.WriteString("]\n\nend Aurora.Generated.PSliceLocks\n")
 	return sb.String(), nil
